@@ -10,6 +10,14 @@ from rig.place_and_route.constraints import (ReserveResourceConstraint, AlignRes
 from rig.place_and_route.exceptions import InsufficientResourceError
 
 
+class SiteReservation(ReserveResourceConstraint):
+    """A user-defined subclass: the allocator must treat it as the reservation it is."""
+
+
+class SiteAlignment(AlignResourceConstraint):
+    pass
+
+
 def run_case(c):
     m = c["machine"]
     machine = Machine(m["w"], m["h"], chip_resources=OrderedDict((r, q) for r, q in m["res"]),
@@ -19,11 +27,12 @@ def run_case(c):
     vres = OrderedDict((v, OrderedDict((r, q) for r, q in rq)) for v, rq in c["vres"])
     cs = []
     for k in c["constraints"]:
+        sub = c.get("subclass") and (len(cs) % 2 == 0)        # every other constraint is a subclass instance
         if k[0] == "reserve":
-            cs.append(ReserveResourceConstraint(k[1], slice(k[2], k[3]),
-                                                None if k[4] is None else tuple(k[4])))
+            cs.append((SiteReservation if sub else ReserveResourceConstraint)(
+                k[1], slice(k[2], k[3]), None if k[4] is None else tuple(k[4])))
         elif k[0] == "align":
-            cs.append(AlignResourceConstraint(k[1], k[2]))
+            cs.append((SiteAlignment if sub else AlignResourceConstraint)(k[1], k[2]))
         else:
             cs.append(LocationConstraint(0, (0, 0)))
     pl = OrderedDict((v, tuple(xy)) for v, xy in c["placements"])
